@@ -7,7 +7,9 @@
 (* for that slice alone.  The judge computes the leftmost-longest           *)
 (* tokenisation from the table (LLSpec!Tok) and requires                    *)
 (*   events(any chunking) = concatenation over spec tokens of slice events, *)
-(* raw tokens surfacing as raw events with exactly their bytes; nothing     *)
+(* raw tokens surfacing as raw events with exactly their bytes; every       *)
+(* recognised token denoting exactly one event (interpreted, or raw with    *)
+(* its bytes when the payload decoder refuses it); nothing                   *)
 (* lost, duplicated or reordered; nothing more once input is exhausted.     *)
 EXTENDS LLSpec, TLC, Json, IOUtils, SequencesExt
 Rec == ndJsonDeserialize(IOEnv.TRACE)
@@ -41,8 +43,12 @@ Verdict(r) ==
   ELSE LET t == Tables(r)
            toks == Tok(1, Len(r.table), t.V, t.M, t.F).out
            exp == Expected(r, toks, 1)
+           \* a recognised sequence is ONE event: interpreted, or raw with exactly its bytes when the payload decoder refuses it
+           oneEvent(i) == LET evs == SliceEvents(r, toks[i].s, toks[i].e) IN
+                          Len(evs) = 1 /\ (evs[1].k = "raw" => evs[1].b = SubSeq(Norm(r.input), toks[i].s, toks[i].e))
            bad == SelectSeq([i \in 1..Len(r.runs) |-> [why |-> RunVerdict(exp, r.runs[i]), run |-> i]], LAMBDA v : v.why # "ok")
-       IN IF bad = <<>> THEN [why |-> "ok", run |-> 0] ELSE bad[1]
+       IN IF \E i \in 1..Len(toks) : toks[i].ok /\ ~oneEvent(i) THEN [why |-> "recognised-sequence-not-one-event", run |-> 1]
+          ELSE IF bad = <<>> THEN [why |-> "ok", run |-> 0] ELSE bad[1]
 Bad == SelectSeq([i \in 1..Len(Rec) |-> [id |-> Rec[i].id] @@ Verdict(Rec[i])], LAMBDA v : v.why # "ok")
 ASSUME ndJsonSerialize(IOEnv.OUT, Bad)
 ASSUME PrintT(<<"JUDGED", Len(Rec), Len(Bad)>>)
